@@ -668,6 +668,10 @@ func runC07(c *Ctx) {
 		}
 	}
 
+	// a Done() case reports the error of the context that fired (else (nil, nil) and a nil dereference in the caller)
+	c.cur = c.Prop + "-R1"
+	checkDoneCaseReportsOwnCtx(c, fns)
+
 	// ---------------------------------------------------------------- R7
 	c.rule("R7", "bounded deadlines are armed before waiting for the peer; the waiting flag is maintained", 6)
 	deadlineConst := func(v ssa.Value) (string, bool) {
@@ -760,61 +764,94 @@ func runC07(c *Ctx) {
 		}
 	}
 	if rl := c.fn(relTransport, "TraditionalDnsConn", "readLoop"); rl != nil {
-		// after every successful read the flag is rewritten: false, or "other waiters remain" (a count derived from
-		// queueLen() compared > 0, D11) — never left as it was, never set true unconditionally
-		var stores []ssa.Instruction
-		okVal := true
-		eachInstr(rl, func(in ssa.Instruction) {
-			ci, ok := in.(*ssa.Call)
-			if !ok || callName(ci) != "(*sync/atomic.Bool).Store" {
-				return
-			}
-			if k, _ := fieldKey(ci.Call.Args[0]); k != T+"TraditionalDnsConn.waitingResp" {
-				return
-			}
-			stores = append(stores, in)
-			v := ci.Call.Args[1]
-			if b, ok := constBool(v); ok {
-				if b {
-					okVal = false
+		// The flag says "some query is still unanswered". It is rewritten (D11, D13) after every successful read with
+		// exactly `len(queue) > 0`, in the critical section (queueMu, write mode) in which the answered query was taken
+		// out of the queue: a count that includes the answered query, answered-but-not-yet-returned queries or the
+		// reservation counter leaves the flag set for ever (no exchange arms the short deadline again, D13); a plain
+		// `false` forgets the other waiters (D11); a store outside the critical section can overwrite the CAS of a query
+		// that registered in between.
+		queueK := T + "TraditionalDnsConn.queue"
+		muK := T + "TraditionalDnsConn.queueMu"
+		storers := map[*ssa.Function]bool{}
+		nStores := 0
+		for _, f := range p.funcsIn(relTransport) {
+			fn := f
+			eachInstr(f, func(in ssa.Instruction) {
+				ci, ok := in.(*ssa.Call)
+				if !ok || callName(ci) != "(*sync/atomic.Bool).Store" {
+					return
 				}
-				return
-			}
-			bo, ok := v.(*ssa.BinOp)
-			if !ok || bo.Op != token.GTR {
-				okVal = false
-				return
-			}
-			if n, ok := constInt(bo.Y); !ok || n != 0 {
-				okVal = false
-				return
-			}
-			fromLen := false
-			for _, lf := range expandCases(bo.X, nil, 0) {
-				x := lf.val
-				if sub, ok := x.(*ssa.BinOp); ok && sub.Op == token.SUB {
-					x = sub.X
+				if k, _ := fieldKey(ci.Call.Args[0]); k != T+"TraditionalDnsConn.waitingResp" {
+					return
 				}
-				if cl, ok := x.(*ssa.Call); ok && strings.HasSuffix(callName(cl), ".queueLen") {
-					fromLen = true
-				} else {
-					fromLen = false
-					break
+				nStores++
+				c.see(fn)
+				key := "waiting-flag-tracks-waiters@" + funcName(fn)
+				why := ""
+				// value: len(<queue field>) > 0
+				bo, ok := ci.Call.Args[1].(*ssa.BinOp)
+				if !ok || bo.Op != token.GTR {
+					why = "the stored value is " + exprStr(ci.Call.Args[1]) + ", not `len(queue) > 0`"
+				} else if n, okc := constInt(bo.Y); !okc || n != 0 {
+					why = "the count is not compared with > 0"
+				} else if lc, okl := bo.X.(*ssa.Call); !okl || callName(lc) != "builtin:len" {
+					why = "the count is " + exprStr(bo.X) + ", not the number of registered waiters (len(queue)): it also counts reservations or answered queries, so the flag never drops"
+				} else if k, okk := loadedField(lc.Call.Args[0]); !okk || k != queueK {
+					why = "the count is the length of " + exprStr(lc.Call.Args[0]) + ", not of the waiter table"
 				}
-			}
-			if !fromLen {
-				okVal = false
-			}
-		})
-		tracks := false
-		for _, st := range stores {
-			if _, isC := constBool(st.(*ssa.Call).Call.Args[1]); !isC {
-				tracks = true
-			}
+				// under the write lock of the table
+				if why == "" && lf.held(in)[muK] != lockW {
+					why = "the flag is stored outside the waiter table's critical section (held: " + lf.held(in).String() + "): a query that registers and fails its CompareAndSwap in between is then left with the idle deadline only"
+				}
+				// the answered query is out of the table before the count: a delete of the looked-up key, guarded at most
+				// by the lookup's ok, precedes the store and none follows it
+				if why == "" {
+					var del ssa.Instruction
+					eachInstr(fn, func(x ssa.Instruction) {
+						if cc, ok := x.(*ssa.Call); ok && callName(cc) == "builtin:delete" {
+							if k, _ := baseFieldOfContainer(cc.Call.Args[0]); k == queueK {
+								del = x
+							}
+						}
+					})
+					if del == nil {
+						why = "the answered query is still in the table when the waiters are counted: the flag stays set after the last reply"
+					} else {
+						lenCall := ssa.Instruction(bo.X.(*ssa.Call))
+						if _, after := reachAvoiding(lenCall, func(x ssa.Instruction) bool { return x == del }, nil); after {
+							why = "the waiters are counted before the answered query is taken out of the table"
+						}
+						for _, g := range guardsOfInstr(del) {
+							v, truth := g.asBool()
+							ex, isEx := v.(*ssa.Extract)
+							if !isEx || !truth || ex.Index != 1 {
+								why = "the answered query is taken out only under " + guardText(g) + ": otherwise it is still counted as waiting"
+								continue
+							}
+							if lk, isLk := ex.Tuple.(*ssa.Lookup); !isLk || !sameKeyValue(lk.Index, del.(*ssa.Call).Call.Args[1]) {
+								why = "the entry taken out is not the one that was looked up"
+							}
+						}
+						if _, skip := reachAvoiding(fn.Blocks[0].Instrs[0], func(x ssa.Instruction) bool { return x == lenCall }, func(x ssa.Instruction) bool { return x == del }); skip {
+							// a path to the store without the delete: only the "no such query" edge may do that
+							okEdge := len(guardsOfInstr(del)) == 1
+							if !okEdge {
+								why = "a path reaches the count without taking the answered query out of the table"
+							}
+						}
+					}
+				}
+				if why == "" && len(guardsOfInstr(in)) == 0 {
+					storers[fn] = true
+				}
+				c.check(why == "", key, instrPos(in), "the flag is `len(queue) > 0`, stored under the table's lock after the answered query was taken out (D11, D13)",
+					"after a reply the waiting flag does not say whether other queries are still unanswered ("+why+"): either an unanswered query keeps only the idle deadline and blocks an unbounded caller for the whole idle timeout (D11), or the flag never drops and later queries inherit what is left of an old deadline and lose replies that arrive in time (D13)")
+			})
 		}
-		c.check(tracks && okVal, "waiting-flag-tracks-waiters@readLoop", rl.Pos(), "after a reply the flag stays set while other queries are still waiting (D11)",
-			"after a reply the reader clears the waiting flag although other queries may still be waiting: a query that is never answered keeps only the idle deadline and, with an unbounded context, blocks for the whole idle timeout (5 min for UDP upstreams) instead of ~10 s")
-		everyRead := len(stores) > 0
+		if nStores == 0 {
+			c.fail("waiting-flag-tracks-waiters@readLoop", rl.Pos(), "the waiting flag is never rewritten after a reply: no exchange arms the short deadline again")
+		}
+		// every successful read passes a storer before the next read
 		var readIn ssa.Instruction
 		eachInstr(rl, func(in ssa.Instruction) {
 			if ci, ok := in.(*ssa.Call); ok {
@@ -826,10 +863,11 @@ func runC07(c *Ctx) {
 				readIn = in
 			}
 		})
+		everyRead := readIn != nil
 		if readIn != nil {
 			isStore := func(x ssa.Instruction) bool {
-				for _, s2 := range stores {
-					if x == s2 {
+				if ci, ok := x.(*ssa.Call); ok {
+					if sc := staticCallee(ci); sc != nil && storers[sc] {
 						return true
 					}
 				}
@@ -839,8 +877,8 @@ func runC07(c *Ctx) {
 				everyRead = false
 			}
 		}
-		c.check(everyRead && okVal, "waiting-flag-cleared@readLoop", rl.Pos(), "every successful read rewrites the waiting flag (false, or 'other waiters remain')",
-			"the reader does not rewrite the waiting flag after every read with false / 'other queries are still waiting': either no exchange arms the short deadline again, or an unanswered query keeps only the idle deadline")
+		c.check(everyRead, "waiting-flag-cleared@readLoop", rl.Pos(), "every successful read rewrites the waiting flag",
+			"the reader does not rewrite the waiting flag after every read: either no exchange arms the short deadline again, or an unanswered query keeps only the idle deadline")
 	}
 	if rl := c.fn(relTransport, "TraditionalDnsConn", "readLoop"); rl != nil {
 		// two writers of the read deadline (exchange: short, reader: idle): the reader must not leave the idle
@@ -890,27 +928,51 @@ func runC07(c *Ctx) {
 		}
 	}
 	if ex := c.fn(relTransport, "reusableConn", "exchange"); ex != nil {
-		good := false
-		desc := ""
+		// every deadline call of the exchange arms a bounded constant, one of them dominates every write, and none
+		// follows the write (a deadline cleared or prolonged after the query went out leaves a silent server unbounded)
+		var dls, writes []ssa.Instruction
+		desc, allConst := "", true
 		eachInstr(ex, func(in ssa.Instruction) {
 			ci, ok := in.(*ssa.Call)
-			if !ok || !ci.Call.IsInvoke() || !(ci.Call.Method.Name() == "SetDeadline" || ci.Call.Method.Name() == "SetReadDeadline") {
+			if !ok || !ci.Call.IsInvoke() {
 				return
 			}
-			d, okD := deadlineConst(ci.Call.Args[0])
-			desc = d
-			// before the write
-			before := false
-			eachInstr(ex, func(x ssa.Instruction) {
-				if w, ok := x.(*ssa.Call); ok && w.Call.IsInvoke() && w.Call.Method.Name() == "Write" && instrDominates(in, x) {
-					before = true
+			switch ci.Call.Method.Name() {
+			case "SetDeadline", "SetReadDeadline":
+				dls = append(dls, in)
+				d, okD := deadlineConst(ci.Call.Args[0])
+				desc = d
+				if !okD {
+					allConst = false
 				}
-			})
-			if okD && before {
-				good = true
+			case "Write":
+				writes = append(writes, in)
 			}
 		})
-		c.check(good, "query-deadline@reusableConn.exchange", ex.Pos(), "a constant deadline ("+desc+") is armed before the query is written", "no bounded deadline is armed before writing the query on a reused connection")
+		good := len(dls) > 0 && len(writes) > 0 && allConst
+		why := ""
+		if !good {
+			why = "no bounded deadline is armed before writing the query on a reused connection (deadline argument: " + desc + ")"
+		}
+		for _, w := range writes {
+			dom := false
+			for _, d := range dls {
+				if instrDominates(d, w) {
+					dom = true
+				}
+				if _, after := reachAvoiding(w, func(y ssa.Instruction) bool { return y == d }, nil); after {
+					good = false
+					why = "a read deadline is set again (" + p.pos(d.Pos()) + ") after the query was written: the bound armed for the reply no longer holds"
+				}
+			}
+			if !dom {
+				good = false
+				if why == "" {
+					why = "a write of the query is not preceded by arming the deadline on every path"
+				}
+			}
+		}
+		c.check(good, "query-deadline@reusableConn.exchange", ex.Pos(), "a constant deadline ("+desc+") is armed before the query is written and not touched afterwards", why)
 	}
 	if ex := c.fn(relTransport, "quicReservedExchanger", "ExchangeReserved"); ex != nil {
 		good := false
@@ -929,14 +991,67 @@ func runC07(c *Ctx) {
 		c.check(good, "query-deadline@quic", ex.Pos(), "stream deadline ("+desc+") armed", "no bounded stream deadline is armed for a DoQ query")
 	}
 	if rl := c.fn(relTransport, "reusableConn", "readLoop"); rl != nil {
-		// after a reply the idle deadline is re-armed
-		good := false
+		// the reader arms the idle deadline after each reply, and only BEFORE it hands the connection back to the idle
+		// set: once the connection is idle an exchange may have armed its own (short) deadline, which the reader must not
+		// override
+		var dls, idles, reads []ssa.Instruction
 		eachInstr(rl, func(in ssa.Instruction) {
-			if ci, ok := in.(*ssa.Call); ok && ci.Call.IsInvoke() && ci.Call.Method.Name() == "SetReadDeadline" {
-				good = true
+			ci, ok := in.(*ssa.Call)
+			if !ok {
+				return
+			}
+			if ci.Call.IsInvoke() && (ci.Call.Method.Name() == "SetReadDeadline" || ci.Call.Method.Name() == "SetDeadline") {
+				dls = append(dls, in)
+			}
+			if sc := staticCallee(ci); sc != nil {
+				if sc.Name() == "setIdle" {
+					idles = append(idles, in)
+				}
+				if sc.Name() == "ReadRawMsgFromTCP" {
+					reads = append(reads, in)
+				}
 			}
 		})
-		c.check(good, "idle-deadline@reusableConn.readLoop", rl.Pos(), "idle deadline re-armed after each reply", "an idle reused connection has no read deadline")
+		good := len(dls) > 0 && len(idles) > 0 && len(reads) > 0
+		why := "an idle reused connection has no read deadline"
+		for _, id := range idles {
+			dom := false
+			for _, d := range dls {
+				if instrDominates(d, id) {
+					dom = true
+				}
+				if _, late := reachAvoiding(id, func(y ssa.Instruction) bool { return y == d }, func(y ssa.Instruction) bool {
+					for _, r := range reads {
+						if y == r {
+							return true
+						}
+					}
+					return false
+				}); late {
+					good = false
+					why = "the reader sets a read deadline (" + p.pos(d.Pos()) + ") after it put the connection back into the idle set: it can override the deadline the next exchange armed for its query, and a silent server then blocks that query for the idle timeout"
+				}
+			}
+			if !dom {
+				good = false
+				why = "the connection is handed back to the idle set without arming the idle deadline first"
+			}
+		}
+		for _, d := range dls {
+			// the deadline is armed only once a reply was read (not before the read: that would cut a slow reply short or
+			// override the query deadline)
+			domByRead := false
+			for _, r := range reads {
+				if instrDominates(r, d) {
+					domByRead = true
+				}
+			}
+			if !domByRead {
+				good = false
+				why = "the reader sets a read deadline (" + p.pos(d.Pos()) + ") before its read: it overrides the deadline the exchange armed for the awaited reply"
+			}
+		}
+		c.check(good, "idle-deadline@reusableConn.readLoop", rl.Pos(), "idle deadline re-armed after each reply, before the connection becomes idle", why)
 	}
 
 	// ---------------------------------------------------------------- R8
@@ -1355,6 +1470,21 @@ func isDirectIO(in ssa.Instruction) bool {
 		if k, ok := loadedField(stripConv(ci.Call.Args[0])); ok && (k == T+"TraditionalDnsConn.c" || k == T+"reusableConn.c") {
 			return true
 		}
+	}
+	return false
+}
+
+
+// sameKeyValue: two SSA values that denote the same key: identical, or the same conversion of the same value (go/ssa
+// does no common-subexpression elimination: `m[uint32(id)]` and `delete(m, uint32(id))` convert twice).
+func sameKeyValue(a, b ssa.Value) bool {
+	if a == b {
+		return true
+	}
+	ca, ok1 := a.(*ssa.Convert)
+	cb, ok2 := b.(*ssa.Convert)
+	if ok1 && ok2 && types.Identical(ca.Type(), cb.Type()) {
+		return sameKeyValue(ca.X, cb.X)
 	}
 	return false
 }
